@@ -1,6 +1,7 @@
 package main
 
 import (
+	"sync/atomic"
 	"os"
 	"context"
 	"errors"
@@ -246,6 +247,19 @@ type lockWorker struct {
 	holds   bool
 	inUnlock bool // inside Unlock, Delete not yet applied
 	calls   int
+	onDone  func() // for lockctx-shut
+}
+
+// shutCtx runs fn the first time Done() is called
+type shutCtx struct {
+	context.Context
+	once sync.Once
+	fn   func()
+}
+
+func (c *shutCtx) Done() <-chan struct{} {
+	c.once.Do(c.fn)
+	return c.Context.Done()
 }
 
 func (w *lockWorker) loop(ready chan<- int64) {
@@ -269,6 +283,14 @@ func (w *lockWorker) loop(ready chan<- int64) {
 					cancel()
 				}
 				if w.locker.LockWithCtx(ctx) == nil {
+					res = "acquired"
+				}
+			case "lockctx-shut":
+				// a context whose Done() — evaluated by lockInternal when it enters its select — shuts the provider
+				// down: Shutdown lands exactly between whatever the code checked before and the select itself
+				ctx, cancel := context.WithCancel(context.Background())
+				w.cancel = cancel
+				if w.locker.LockWithCtx(&shutCtx{Context: ctx, fn: w.onDone}) == nil {
 					res = "acquired"
 				}
 			case "try":
@@ -301,6 +323,9 @@ type lockCase struct {
 	faulted  bool
 	replyLostInTenure bool
 	weak     bool // the scripted history lets the lease lapse while an Unlock is stalled before its Delete (KF-1)
+	shutMode bool  // this case may use the call kind lockctx-shut (once)
+	shutUsed bool
+	shutBy   int32 // provider+1 shut down from inside a Done() call, not yet reported as a trace event
 }
 
 func (lc *lockCase) ev(line string) {
@@ -336,6 +361,11 @@ func (lc *lockCase) settle(expectCas int) bool {
 		return n
 	}
 	for {
+		if p := atomic.SwapInt32(&lc.shutBy, 0); p > 0 {
+			// the provider was shut down from inside the attempt's select evaluation: environment step
+			lc.provDown[p-1] = true
+			lc.ev(fmt.Sprintf("shutdown %d", p-1))
+		}
 		// collect returns
 		for _, w := range lc.workers {
 			if !w.running {
@@ -348,6 +378,9 @@ func (lc *lockCase) settle(expectCas int) bool {
 					w.inUnlock = false
 				} else if res == "acquired" {
 					w.holds = true
+					if w.kind == "lockctx-shut" {
+						lc.ctx.R.Quiet("mon C04-after-shutdown-no-acquire", fmt.Sprintf("worker %d: the provider was shut down while the attempt stood at the select of lockInternal (Shutdown had returned), yet the attempt went on and acquired the lock", w.idx))
+					}
 				}
 				lc.reportArrivals()
 				lc.ev(fmt.Sprintf("ret %d %s", w.idx, res))
@@ -525,6 +558,9 @@ func (lc *lockCase) enabled(budget int) []action {
 				for _, k := range []string{"lock", "lockctx", "try", "lockctx-cancelled"} {
 					as = append(as, action{kind: "call", w: w.idx, arg: k})
 				}
+				if lc.shutMode && !lc.shutUsed && !lc.provDown[lc.pv[lc.lk[w.idx]]] {
+					as = append(as, action{kind: "call", w: w.idx, arg: "lockctx-shut"})
+				}
 			}
 		}
 		if w.running && w.hasCtx && w.cancel != nil {
@@ -606,7 +642,17 @@ func (lc *lockCase) perform(a action) {
 		if others > 0 && a.arg != "unlock" {
 			lc.overlap = true
 		}
-		lc.ev(fmt.Sprintf("call %d %s", a.w, a.arg))
+		evKind := a.arg
+		if a.arg == "lockctx-shut" {
+			// (for the model it is a LockWithCtx with a live context; the shutdown is a separate event)
+			lc.shutUsed = true
+			p := lc.pv[lc.lk[a.w]]
+			w.onDone = func() {
+				lc.provs[p].Shutdown()
+				atomic.StoreInt32(&lc.shutBy, int32(p+1))
+			}
+		}
+		lc.ev(fmt.Sprintf("call %d %s", a.w, evKind))
 		w.start <- a.arg
 		lc.settle(0)
 	case "cancel":
@@ -743,7 +789,7 @@ func runLockCase(ctx *Ctx, lk, pv []int, steps, budget, maxFault int, shutdownAt
 
 func runLockCaseX(ctx *Ctx, lk, pv []int, steps, budget, maxFault int, shutdownAt int, script []string) {
 	timeout.VerifDrain()
-	lc := &lockCase{ctx: ctx, store: newGateStore(), lk: lk, pv: pv, known: map[int]bool{}, owner: -1, maxFault: maxFault}
+	lc := &lockCase{ctx: ctx, store: newGateStore(), lk: lk, pv: pv, known: map[int]bool{}, owner: -1, maxFault: maxFault, shutMode: shutdownAt == -2}
 	lc.heap0 = timeout.VerifHeapLen()
 	np := 0
 	for _, p := range pv {
@@ -798,6 +844,9 @@ func runLockCaseX(ctx *Ctx, lk, pv []int, steps, budget, maxFault int, shutdownA
 			a = &action{kind: w[0]}
 		case w[0] == "shutdown":
 			p := atoi(w[1])
+			if lc.provDown[p] {
+				continue // already shut down from inside a lockctx-shut call
+			}
 			lc.provDown[p] = true
 			lc.ev(line)
 			lc.provs[p].Shutdown()
@@ -1055,6 +1104,8 @@ func runLock(ctx *Ctx) {
 		shutdownAt := -1
 		if r.Chance(1, 8) {
 			shutdownAt = r.Range(2, 25)
+		} else if r.Chance(1, 7) {
+			shutdownAt = -2 // Shutdown from inside an attempt's select evaluation (call kind lockctx-shut)
 		}
 		runLockCase(ctx, cfg.lk, cfg.pv, r.Range(8, 45), r.Range(2, 4), maxFault, shutdownAt)
 	}
